@@ -11,6 +11,17 @@ Theorem C04_pget_is_filter :
 Proof. exact @collect_spec. Qed.
 Print Assumptions C04_pget_is_filter.
 
+(* pdelete: ndelete_matches removes exactly the entries satisfying store_match, keeps every other
+   entry, and returns what ncollect_matches would have returned *)
+Theorem C04_pdelete_is_filter :
+  forall (V : Type) (n : node V) (trav : list str) (p : list kseg) (q : list str),
+    wfn n ->
+    (wfn (dr_node (delm n trav p)) /\
+     lookup (dr_node (delm n trav p)) q = if store_match p q then None else lookup n q) /\
+    dr_matches (delm n trav p) = collect n trav p.
+Proof. intros V n trav p q H. split; [now apply delm_spec|apply delm_matches]. Qed.
+Print Assumptions C04_pdelete_is_filter.
+
 (* the store's relation is the documented one plus "a trailing # also stands for zero levels" *)
 Theorem C04_store_vs_doc :
   forall p k, wf_pat p = true -> store_match p k = doc_match p k || zero_multi p k.
